@@ -14,6 +14,7 @@ pub mod c08s;
 pub mod c09;
 pub mod c10;
 pub mod c10f;
+pub mod c10v;
 pub mod c11;
 pub mod c12;
 pub mod c13;
